@@ -23,7 +23,14 @@ NEGATIVE_CONTROLS = [
     "nc7 apilistener.cpp ApiListener::Start: authority timer every 7 s instead of 10 s, timers created in another order (the harness "
     "takes which timer ran as an oracle input)",
     "nc8 notification.cpp ExecuteNotificationHelper: OnNotificationSentToUser emitted before the command runs (the harness waits for both)",
+    "nc9 apilistener.cpp OnConfigLoaded: the ApiListener object itself becomes HARunEverywhere (infrastructure objects are not observed)",
 ]
+# Compared between model and implementation: paused, #Pause(), #Resume(), #command executions per observed object, Utility::SDBM.
+# Deliberately NOT compared: number of OnPausedChanged notifications, length of the notification stash, log text, timer periods
+# (which timer ran is an oracle input), iteration orders, the authority of Endpoint/Zone/ApiListener/started components.
+# Known dependency: the harness reaches eight private members by name (ApiListener::m_UpdatedObjectAuthority, m_RelayQueue,
+# m_SyncQueue, m_AuthorityTimer; NotificationComponent::m_NotificationTimer; CheckerComponent::m_IdleCheckables,
+# m_PendingCheckables, m_Mutex): renaming one of them breaks the harness build, reported as a broken tie, never as a failing input.
 
 
 class C10(Check):
@@ -48,7 +55,7 @@ class C10(Check):
                   "notification-timer / due-check events on both members the model's trace satisfies the executable specification. The model is tied to the code by running two real ApiListener nodes "
                   "(real Endpoint/Zone/JsonRpcConnection objects, real UpdateObjectAuthority directly and through the authority timer "
                   "registered by ApiListener::Start, real SetAuthority/Pause/Resume on Host, Service, Notification, Downtime, Comment, "
-                  "CheckerComponent, NotificationComponent, Endpoint, Zone, ApiListener objects; a real started NotificationComponent and "
+                  "CheckerComponent, NotificationComponent objects; a real started NotificationComponent and "
                   "CheckerComponent per node with recording notification/check commands; two real threads blocked on an object's lock for "
                   "overlapping authority runs) on generated scenarios, diffing paused, the Pause()/Resume()/SetPaused counts, the command "
                   "executions and the stash length of every object after every event on both nodes, tying Utility::SDBM on the full "
@@ -204,8 +211,8 @@ class C10(Check):
                     "no-listener / own single-member zone / one zone with A, B and 0-3 further members; endpoint, zone and object names of "
                     "1..40 arbitrary bytes (ASCII, only >= 0x80, mixed, any byte incl. NUL, near-equal names, prefix/sign-bit variants of the "
                     "peer's name, same name for objects of different types); 1..24 (40 thorough) objects of Host, Service, Notification, "
-                    "Downtime, Comment, CheckerComponent, NotificationComponent, some run-everywhere, some never activated, plus the "
-                    "Endpoint/Zone/ApiListener objects themselves; 4..34 (64) events: restarts (start time set or 0), symmetric and one-sided "
+                    "Downtime, Comment, CheckerComponent, NotificationComponent, some run-everywhere, some never activated (the "
+                    "Endpoint/Zone/ApiListener objects and the node's started components are not observed); 4..34 (64) events: restarts (start time set or 0), symmetric and one-sided "
                     "connects/disconnects, UpdateObjectAuthority directly, through Timer::VerifFireDue and (a third of the cases) as two "
                     "overlapping runs blocked on a random object's lock, forced notification requests (also inside the cold-start window), "
                     "notification timer runs, due checks of random checkables, the same work on both members after link changes, clocks "
